@@ -42,7 +42,7 @@ CONSTANTS Cap,        \* capacity of the pending-write queue (MaximumClientWrite
           MaxDir,     \* PINGREQs the client sends
           Sizes,      \* sizes of published packets
           Dev,
-          EnvOn,      \* {"disc"}: the client may send a second CONNECT
+          EnvOn,      \* "disc": the client may send a second CONNECT; "age": time may pass once (messages expire while queued)
           MaxHist
 
 Over == 99
@@ -272,10 +272,17 @@ StopAct ==
     /\ Log("rd", "read.handled", "")
     /\ UNCHANGED <<q, cur, lock, outbuf, pend, fl, qseen, wire, sent, dropped, acc, npub, ndir, inwrite, maxw, disc, refd>>
 
+(* time passes (more than the server's maximum message expiry): the code as it stands sends a queued message all the  *)
+(* same (with the shortest interval), so nothing changes here; the step exists so that schedules contain it          *)
+Age ==
+    /\ "age" \in EnvOn /\ \A i \in 1..Len(hist) : hist[i][2] # "age"
+    /\ Log("env", "age", "")
+    /\ UNCHANGED <<q, cur, pc, lock, outbuf, pend, fl, qseen, wire, sent, dropped, acc, npub, ndir, inwrite, maxw, closed, disc, refd>>
+
 Next ==
     /\ ~closed
     /\ \/ \E sz \in Sizes : Publish(sz)
-       \/ Ping \/ BadPacket
+       \/ Ping \/ BadPacket \/ Age
        \/ Dequeued \/ Refuse \/ Handled \/ StopAct \/ FinishRefused
        \/ \E w \in W : Enter(w) \/ Critical(w) \/ ConnDone(w) \/ Finish(w)
 
